@@ -184,4 +184,26 @@ def includeGo (docs : List Doc) : Nat → List (List String) → List (List Stri
       | none => includeGo docs n visited todo          -- unresolvable location: warning, skipped
       | some d => includeGo docs n (visited ++ [k]) (d.includes.map (fun i => resolve d.dir i.1 i.2) ++ todo)
 
+/-- the locations of a document's includes RESOLVED against the document's own directory -/
+def resolvedIncludes (d : Doc) : List (List String) := d.includes.map (fun i => resolve d.dir i.1 i.2)
+
+/-! A loader that trusts the RAW location string (seed C09-4, loaders.py include_schema): before resolving a
+    location against the including document it looks the string up among the locations that the MAIN document
+    wrote, and takes the main document's file for it.  Kept as a counter-model: `includeGo` above (the code of
+    /repo) never compares raw strings of different documents. -/
+def rawLookup (main : Doc) (i : Bool × List String) : Option (List String) :=
+  (main.includes.find? (fun j => j = i)).map (fun j => resolve main.dir j.1 j.2)
+
+def includeGoRaw (docs : List Doc) (main : Doc) : Nat → List (List String) → List (List String) → List (List String)
+  | 0, visited, _ => visited
+  | _ + 1, visited, [] => visited
+  | n + 1, visited, k :: todo =>
+    if k ∈ visited then includeGoRaw docs main n visited todo
+    else match findDoc docs k with
+      | none => includeGoRaw docs main n visited todo
+      | some d => includeGoRaw docs main n (visited ++ [k])
+          (d.includes.map (fun i => match rawLookup main i with
+                                    | some k' => k'
+                                    | none => resolve d.dir i.1 i.2) ++ todo)
+
 end XsVerif.Staged
